@@ -63,19 +63,20 @@ def check_cells_record(chk, r, m, prop='C01', want=('vol', 'centroid', 'faces', 
             if abs(det) < 1e-5:
                 illv.add(vi)
         loose = 10000 if illv else 1
+        illk = ' ill-vertex' if illv else ''
         if illv:
             chk.extra_cov['near_degenerate_cells_compared_loosely'] = chk.extra_cov.get('near_degenerate_cells_compared_loosely', 0) + 1
             chk.extra_cov['ill_conditioned_vertices_skipped'] = chk.extra_cov.get('ill_conditioned_vertices_skipped', 0) + len(illv)
         if 'vol' in want:
             if c.volume is None or abs(c.volume - e.vol) > tol.vol:
-                chk.violation('impl-vs-model', 'volume %s differs from exact %s by more than %.3g, %s' % (fl(c.volume), fl(e.vol), float(tol.vol), where), rp, key=r.family)
+                chk.violation('impl-vs-model', 'volume %s differs from exact %s by more than %.3g, %s' % (fl(c.volume), fl(e.vol), float(tol.vol), where), rp, key=r.family + illk)
         if 'centroid' in want and e.vol > tol.vol * 1000:
             if not close3(c.centroid, e.centroid, tol.pos * loose):
-                chk.violation('impl-vs-model', 'centroid %s differs from exact %s, %s' % (fl3(c.centroid), fl3(e.centroid), where), rp, key=r.family)
+                chk.violation('impl-vs-model', 'centroid %s differs from exact %s, %s' % (fl3(c.centroid), fl3(e.centroid), where), rp, key=r.family + illk)
         if 'sr' in want:
             sr = impl['sr'][c.idx] if c.idx < len(impl['sr']) else None
             if not area_close(sr, 4 * e.maxr2, 2 * tol.pos):
-                chk.violation('impl-vs-model', 'safety radius %s differs from 2*max vertex distance %.17g, %s' % (fl(sr), (4 * float(e.maxr2)) ** 0.5, where), rp, key=r.family)
+                chk.violation('impl-vs-model', 'safety radius %s differs from 2*max vertex distance %.17g, %s' % (fl(sr), (4 * float(e.maxr2)) ** 0.5, where), rp, key=r.family + illk)
         if 'faces' in want:
             ifaces = [(f, (f.right, shift_triple(f.shift, inp))) for f in c.faces]
             used = set()
@@ -97,16 +98,16 @@ def check_cells_record(chk, r, m, prop='C01', want=('vol', 'centroid', 'faces', 
                     cands = [(fl(f.area), fl3(f.centroid)) for (f, fk) in ifaces if fk == key]
                     onwall = ' gen-on-wall' if (mf.right is None and gen_on_wall(inp, c.idx)) else ''
                     chk.violation('impl-vs-model', 'face towards %s shift %s with exact area %.6g centroid %s is missing or wrong (implementation has %s), %s'
-                                  % (mf.right, mf.shift, float(mf.area2) ** 0.5, fl3(mf.centroid), cands, where), rp, key=r.family + onwall)
+                                  % (mf.right, mf.shift, float(mf.area2) ** 0.5, fl3(mf.centroid), cands, where), rp, key=r.family + onwall + illk)
             for k, (f, fk) in enumerate(ifaces):
                 if k in used:
                     continue
                 if f.area is None:
-                    chk.violation('impl-vs-model', 'non-finite face area, ' + where, rp, key=r.family)
+                    chk.violation('impl-vs-model', 'non-finite face area, ' + where, rp, key=r.family + illk)
                 elif f.area > tol.area or f.area < -tol.area:
                     # is there an exact face with this key at all (negligible ones are optional)
                     onwall = ' gen-on-wall' if (fk[0] is None and gen_on_wall(inp, c.idx)) else ''
-                    chk.violation('impl-vs-model', 'spurious face towards %s shift %s with area %s, %s' % (fk[0], fk[1], fl(f.area), where), rp, key=r.family + onwall)
+                    chk.violation('impl-vs-model', 'spurious face towards %s shift %s with area %s, %s' % (fk[0], fk[1], fl(f.area), where), rp, key=r.family + onwall + illk)
         if 'verts' in want:
             # Hausdorff distance between the two polytopes, each given by vertices and half spaces:
             # every implementation vertex satisfies every exact half space, every exact vertex every implementation half space
@@ -136,7 +137,7 @@ def check_cells_record(chk, r, m, prop='C01', want=('vol', 'centroid', 'faces', 
                     if bad:
                         break
             if bad:
-                chk.violation('impl-vs-model', bad + ', ' + where, rp, key=r.family)
+                chk.violation('impl-vs-model', bad + ', ' + where, rp, key=r.family + illk)
     return ncmp
 
 
